@@ -1,9 +1,9 @@
 //! Shrinks a violating (plan, script) while the same violation class persists for the same
-//! task and the same first differing component (DESIGN.md §3.7).
+//! task and the same first differing component (DESIGN.md §3.7). Every candidate is executed
+//! in its own fork of the pristine simulator process, exactly like the run that found it.
 
 use crate::oracle::{self, References, Violation};
 use crate::plan::*;
-use crate::sched::{self, RunRecord};
 
 pub struct Found {
     pub plan: Plan,
@@ -13,30 +13,34 @@ pub struct Found {
     pub executions: u32,
 }
 
-fn run(plan: &Plan, script: &[Action], refs: &mut References) -> (RunRecord, Vec<Violation>) {
-    let budgets = refs.budgets(plan);
-    let rec = sched::execute(plan, Some(script), &budgets);
-    let chk = oracle::check(plan, &rec, refs);
-    (rec, chk.violations)
-}
-
 /// Executes the candidate under `Strategy::Script`; returns the re-recorded trace if the
 /// target violation is still there.
 fn still(plan: &Plan, script: &[Action], target: &Violation, refs: &mut References, n: &mut u32) -> Option<(Vec<Action>, Violation, u64)> {
     *n += 1;
-    let (rec, vs) = run(plan, script, refs);
-    vs.into_iter().find(|v| v.same_as(target)).map(|v| (rec.trace, v, rec.log_hash))
+    let r = oracle::run_forked(plan, Some(script), refs);
+    let vs = oracle::violations_of(&r);
+    let v = vs.into_iter().find(|v| v.same_as(target))?;
+    match r {
+        Ok(s) => Some((s.trace, v, s.log_hash)),
+        // the process died: there is no re-recorded trace; keep the script we asked for
+        Err(_) => Some((script.to_vec(), v, 0)),
+    }
 }
 
 pub fn minimise(plan: &Plan, trace: &[Action], target: &Violation, refs: &mut References) -> Result<Found, String> {
     let mut n = 0u32;
     let mut plan = plan.clone();
-    plan.strategy = Strategy::Script;
+    let original_strategy = plan.strategy.clone();
     let mut script = trace.to_vec();
-    let Some((t, mut viol, mut log_hash)) = still(&plan, &script, target, refs, &mut n) else {
+    if !target.is_death() || !trace.is_empty() {
+        plan.strategy = Strategy::Script;
+    }
+    let first = still(&plan, &script, target, refs, &mut n);
+    let Some((t, mut viol, mut log_hash)) = first else {
         return Err(format!("the recorded trace of {} run {} does not reproduce its violation under replay", plan.stratum, plan.run));
     };
     script = t;
+    let _ = original_strategy;
 
     macro_rules! attempt {
         ($cand:expr, $scr:expr) => {{
@@ -53,18 +57,56 @@ pub fn minimise(plan: &Plan, trace: &[Action], target: &Violation, refs: &mut Re
             }
         }};
     }
+    let needed = |p: &Plan, i: usize| -> bool {
+        // the violating task itself must stay (one copy of it)
+        !target.is_death() && p.tasks[i].key() == target.task_key && p.tasks.iter().filter(|t| t.key() == target.task_key).count() == 1
+    };
 
     for _round in 0..3 {
         let before = (plan.clone(), script.len());
-        // a solo-T violation needs nothing but the task itself
-        // 1. drop tasks
+        // 1a. drop tasks in chunks (ddmin), for long plans
+        let mut chunk = plan.tasks.len() / 2;
+        while chunk >= 2 && plan.tasks.len() > 4 {
+            let mut start = 0;
+            let mut progress = false;
+            while start < plan.tasks.len() {
+                let end = (start + chunk).min(plan.tasks.len());
+                let mut c = plan.clone();
+                let mut kept = vec![];
+                for (i, t) in plan.tasks.iter().enumerate() {
+                    if i < start || i >= end || needed(&plan, i) {
+                        kept.push(t.clone());
+                    }
+                }
+                if kept.len() == plan.tasks.len() || kept.is_empty() {
+                    start = end;
+                    continue;
+                }
+                c.tasks = kept;
+                if let Strategy::Pct { .. } = c.strategy {
+                    c.strategy = Strategy::Script;
+                }
+                // long plans run sequentially; their scripts carry no information worth keeping
+                let scr = if plan.tasks.len() > 64 { vec![] } else { script.clone() };
+                if attempt!(c, scr) {
+                    progress = true;
+                    // same start: the next chunk slid into place
+                } else {
+                    start = end;
+                }
+            }
+            if !progress || chunk > plan.tasks.len() / 2 {
+                chunk /= 2;
+            }
+        }
+        // 1b. drop tasks one at a time
         let mut i = plan.tasks.len();
         while i > 0 {
             i -= 1;
-            if plan.tasks.len() <= 1 {
-                break;
+            if plan.tasks.len() <= 1 || i >= plan.tasks.len() {
+                continue;
             }
-            if plan.tasks[i].key() == target.task_key && plan.tasks.iter().filter(|t| t.key() == target.task_key).count() == 1 {
+            if needed(&plan, i) {
                 continue;
             }
             let mut c = plan.clone();
@@ -136,9 +178,8 @@ pub fn minimise(plan: &Plan, trace: &[Action], target: &Violation, refs: &mut Re
             attempt!(c, script.clone());
         }
         // 7. schedule: shortest script prefix (the canonical default continues it)
-        {
+        if plan.strategy == Strategy::Script && !script.is_empty() {
             let (mut lo, mut hi) = (0usize, script.len());
-            // invariant: prefix of length hi reproduces
             while lo < hi {
                 let mid = (lo + hi) / 2;
                 if still(&plan, &script[..mid], target, refs, &mut n).is_some() {
@@ -152,7 +193,7 @@ pub fn minimise(plan: &Plan, trace: &[Action], target: &Violation, refs: &mut Re
             }
         }
         // 8. schedule: remove single switches (bounded)
-        {
+        if plan.strategy == Strategy::Script {
             let mut tries = 0;
             let mut i = script.len();
             while i > 0 && tries < 64 {
@@ -178,7 +219,7 @@ pub fn minimise(plan: &Plan, trace: &[Action], target: &Violation, refs: &mut Re
     let Some((t2, v2, h2)) = still(&plan, &script, target, refs, &mut n) else {
         return Err("minimised run does not reproduce".into());
     };
-    if h2 != log_hash || t2 != script || v2.fingerprint != viol.fingerprint {
+    if !target.is_death() && (h2 != log_hash || t2 != script || v2.fingerprint != viol.fingerprint) {
         return Err("minimised run is not deterministic under replay".into());
     }
     Ok(Found { plan, script, violation: viol, log_hash, executions: n })
